@@ -9,7 +9,7 @@ PID = "C07"
 ANCHORS = ["pyoma2.functions.fdd:EFDD_mpe", "pyoma2.functions.fdd:SDOF_bellandMS", "pyoma2.functions.fdd:FDD_mpe", "pyoma2.algorithms.fdd:EFDD.mpe"]
 REQUIRED_MONITORS = ["truth@EFDD_mpe(EFDD)", "truth@EFDD_mpe(FSDD)", "scale-invariance(EFDD)", "scale-invariance(FSDD)", "truth@EFDD.mpe(class)", "truth@FSDD.mpe(class)"]
 ALL_STATES = [f"nxseg={n}" for n in (1024, 2048, 4096, 8192)] + ["xi<3%", "xi>4%", "fn<0.08fs", "fn>0.2fs", "bandwidth<6 lines", "same array object analysed twice with different content"]
-REQUIRED_STATES = ["edge sweep: damping 2 % / 5 %, band of exactly four bandwidths", "as many requests as channels", "analysis band wider than the natural frequency (reaches below 0 Hz)", "fs below 0.3 Hz (slow monitoring record)", "fs above 3 kHz", "EFDD_mpe called with method / DF1 / DF2 by position", "nxseg=1024", "nxseg=2048", "nxseg=4096", "xi<3%", "xi>4%", "same array object analysed twice with different content", "Fortran-ordered spectral matrix", "pick given as an integer", "class created with the default estimator"]
+REQUIRED_STATES = ["selection 2-5 % beside the peak", "edge sweep: damping 2 % / 5 %, band of exactly four bandwidths", "as many requests as channels", "analysis band wider than the natural frequency (reaches below 0 Hz)", "fs below 0.3 Hz (slow monitoring record)", "fs above 3 kHz", "EFDD_mpe called with method / DF1 / DF2 by position", "nxseg=1024", "nxseg=2048", "nxseg=4096", "xi<3%", "xi>4%", "same array object analysed twice with different content", "Fortran-ordered spectral matrix", "pick given as an integer", "class created with the default estimator"]
 RULE = ("exactly the quantifier's class: analytic SDOF spectral density |H(f)|^2 phi phi^T + 1e-9 full-rank floor on the grid k fs/nxseg, fn in "
         "[0.04,0.25] fs, xi in [2,5] %, half-power bandwidth >= 4 lines, >= 30 periods in the half record, 2..6 channels, real shapes, "
         "DF2 in [4,10] bandwidths, default sppk/npmax/MAClim; oracle = the statement's numbers (MAC >= 0.999, 2.5 % frequency, 15 % damping) "
@@ -135,11 +135,20 @@ def run_function(ctx, rng):
         pick = [int(fn)] if (float(fn).is_integer() and rng.random() < 0.7) else [fn]
         if isinstance(pick[0], int):
             ctx.state("pick given as an integer")
-        Fn, Xi, Phi, _ = fdd.EFDD_mpe(S, freq, 1 / fs, pick, "per", method=method, DF1=DF1, DF2=DF2)
+        DF1_ = DF1
+        if not isinstance(pick[0], int) and rng.random() < 0.3 and not getattr(draw, "wide", False):
+            # a selection two to five percent beside the peak (read off a diagram by eye): the first stage finds the peak inside
+            # its band, the fit is that of the mode - not of the selected frequency
+            off_ = float(rng.choice([-1, 1]) * rng.uniform(0.02, 0.05))
+            if abs(off_) * fn < 0.45 * DF2:
+                pick = [fn * (1 + off_)]
+                DF1_ = abs(off_) * fn + 2 * df
+                ctx.state("selection 2-5 % beside the peak")
+        Fn, Xi, Phi, _ = fdd.EFDD_mpe(S, freq, 1 / fs, pick, "per", method=method, DF1=DF1_, DF2=DF2)
         ctx.check(np.array_equal(S, Sc), "inputs_modified", "EFDD_mpe modified the spectral matrix")
         if rng.random() < 0.25:
             # the documented positional order (Sy, freq, dt, sel_freq, method_SD, method, DF1, DF2) means what the keywords mean
-            Fp, Xp, Pp, _ = fdd.EFDD_mpe(S, freq, 1 / fs, pick, "per", method, DF1, DF2)
+            Fp, Xp, Pp, _ = fdd.EFDD_mpe(S, freq, 1 / fs, pick, "per", method, DF1_, DF2)
             ctx.state("EFDD_mpe called with method / DF1 / DF2 by position")
             ctx.check(np.array_equal(Fp, Fn) and np.array_equal(Xp, Xi), f"{method}:positional_call_differs",
                       lambda: f"EFDD_mpe(Sy, freq, dt, sel, 'per', {method!r}, DF1, DF2) gives fn={np.ravel(Fp)}, xi={np.ravel(Xp)}; with keywords fn={np.ravel(Fn)}, xi={np.ravel(Xi)} {info}")
@@ -155,7 +164,7 @@ def run_function(ctx, rng):
                          lambda: f"{method}: {nch} requests on {nch} channels: shapes {np.shape(Fm)} {np.shape(Xm)} {np.shape(Pm)}"):
                 for j in range(nch):
                     judge(ctx, f"truth@EFDD_mpe({method})", f"{method}_request_{'first' if j == 0 else 'later'}", Fm[j:j + 1], Xm[j:j + 1], Pm[:, j:j + 1], fn, xi, phi, info + f" [request {j} of {nch}]")
-        Fn2, Xi2, Phi2, _ = fdd.EFDD_mpe(S * c, freq, 1 / fs, [fn], "per", method=method, DF1=DF1, DF2=DF2)
+        Fn2, Xi2, Phi2, _ = fdd.EFDD_mpe(S * c, freq, 1 / fs, [float(pick[0])], "per", method=method, DF1=DF1_, DF2=DF2)
         ctx.ev(f"scale-invariance({method})")
         d = max(abs(np.ravel(Fn2)[0] - np.ravel(Fn)[0]) / fn, abs(np.ravel(Xi2)[0] - np.ravel(Xi)[0]) / xi)
         ctx.maxi(f"scale-invariance({method}): worst change", d)
